@@ -234,3 +234,50 @@ RECIPES += [
     ("C10", "break", ["C10-R6"], CYC, "        pv = np.ones(yu.size, bool)", "        pv = np.zeros(yu.size, bool)", "mask created all False: the first sample is dropped"),
     ("C10", "break", ["C10-R7"], FDE, "        if np.any(pv):\n            x = BinAmps[j, pv] ** 2", "        if not pv.any():\n            continue\n        if True:\n            x = BinAmps[j, pv]", "continue guard; x of degree 1 compared through np.interp / tantheta"),
 ]
+
+
+# ============================================================================================ third pass: the reversal test of the vectorised findap
+_FINDAP_REV = '''        s = np.sign(np.diff(yu))
+        # [ 1,  1,  1, -1]
+
+        # locate local max/mins:
+        pv = np.ones(yu.size, bool)
+        pv[1:-1] = np.abs(np.diff(s)) == 2
+'''
+
+
+def _rev(kind, pre, test, text, rules=()):
+    return ("C10", kind, list(rules), CYC, _FINDAP_REV, pre + "        pv = np.ones(yu.size, bool)\n        pv[1:-1] = " + test + "\n", text)
+
+
+_S = "        s = np.sign(np.diff(yu))\n"
+_D = "        d = np.diff(yu)\n"
+
+RECIPES += [
+    # ---------------------------------------------------------------------------------------------------------------- break
+    _rev("break", _D, "d[:-1] * d[1:] < 0", "reversal test as the sign of the product of two slopes in the signal's own dtype: wraps around for int16 / int32 signals (seeded change F)", ["C10-R6"]),
+    _rev("break", "", "(yu[1:-1] - yu[:-2]) * (yu[1:-1] - yu[2:]) > 0", "local-extreme test as a product of the two one-sided differences (same overflow, multiplied out by the evaluator)", ["C10-R6"]),
+    _rev("break", _D, "np.sign(d[:-1] * d[1:]) == -1", "sign taken after the product", ["C10-R6"]),
+    _rev("break", _D, "d[:-1] * d[1:] <= 0", "non-strict product test (a product that wraps to exactly 0 marks a non-reversal)", ["C10-R6"]),
+    _rev("break", "        d = np.diff(yu)\n        q = d * d\n", "(q[:-1] + q[1:]) > (d[:-1] + d[1:]) ** 2", "d0^2 + d1^2 > (d0 + d1)^2, algebraically d0 d1 < 0: squares of slopes wrap as well", ["C10-R6"]),
+    _rev("break", _S, "np.diff(s) == 2", "only valleys (slope sign going from -1 to +1) are marked", ["C10-R6"]),
+    _rev("break", _S, "s[:-1] > s[1:]", "only peaks are marked", ["C10-R6"]),
+    _rev("break", _S, "s[1:] == s[:-1]", "samples on monotone stretches are marked instead of the reversals", ["C10-R6"]),
+    _rev("break", _S, "np.abs(np.diff(s)) == 1", "a jump of 1 between slope signs never happens on retained samples: no interior reversal is marked", ["C10-R6"]),
+    # -------------------------------------------------------------------------------------------------------------- neutral
+    _rev("neutral", _S, "s[1:] != s[:-1]", "neighbouring slope signs differ"),
+    _rev("neutral", _S, "s[:-1] * s[1:] < 0", "product of the slope SIGNS (values in {-1, 0, 1}: cannot overflow)"),
+    _rev("neutral", _D, "(d[:-1] > 0) != (d[1:] > 0)", "slopes compared with 0, masks compared"),
+    _rev("neutral", _D, "((d[:-1] > 0) & (d[1:] < 0)) | ((d[:-1] < 0) & (d[1:] > 0))", "peak-or-valley spelled with mask operators"),
+    _rev("neutral", "        mid, lft, rgt = yu[1:-1], yu[:-2], yu[2:]\n", "((mid > lft) & (mid > rgt)) | ((mid < lft) & (mid < rgt))", "samples compared directly with both neighbours, no differences at all"),
+    _rev("neutral", "        d = np.diff(yu.astype(float))\n", "d[:-1] * d[1:] < 0", "slope product after converting the samples to float (identical unless the product underflows, |slope| < 1e-162)"),
+    _rev("neutral", "        d = np.diff(yu).astype(np.float64)\n", "d[:-1] * d[1:] < 0", "slope product after converting the slopes to float64"),
+    _rev("neutral", _D, "np.logical_xor(d[:-1] > 0, d[1:] > 0)", "np.logical_xor of the two slope tests"),
+    _rev("neutral", _D, "(d[:-1] > 0) ^ (d[1:] > 0)", "^ on the two slope masks"),
+    _rev("neutral", _D, "np.signbit(d[:-1]) != np.signbit(d[1:])", "np.signbit of the slopes"),
+    _rev("neutral", _D, "np.sign(d[:-1]) + np.sign(d[1:]) == 0", "the two slope signs cancel"),
+    _rev("neutral", _S, "np.where(s[:-1] == s[1:], False, True)", "np.where over equal signs"),
+    _rev("neutral", _S, "~(s[:-1] == s[1:])", "inverted equality mask"),
+    _rev("neutral", _S, "np.abs(np.diff(s)) > 0", "any non-zero jump of the slope sign (0 and 2 are the only jumps on retained samples)"),
+    _rev("neutral", _D, "d[:-1] / d[1:] < 0", "sign of the quotient of the slopes (true division is floating point; slopes of retained samples are never 0)"),
+]
